@@ -2,7 +2,9 @@
    Model: Model/Features.v.  Both analyses run on the same negated sample list with the same
    kernel outputs k (the harness computes them on the negated signal in both cases; for the
    amplitude method the detector mask is the same because the envelope of -x is that of x —
-   checked on every generated signal).  The equality below is exact: indices, every shape column
+   evaluated by the harness on every generated signal with the reference kernels and counted in the
+   evidence as mirror_premise_checked / mirror_premise_failed; a premise-failed case is kept out of
+   the model comparison).  The equality below is exact: indices, every shape column
    (after the documented swap / negation / 1 - x), all burst features, all labels, and errors. *)
 From Coq Require Import List Arith Bool ZArith Floats.PrimFloat.
 Import ListNotations.
